@@ -588,7 +588,8 @@ class Window(OperatorMixin):
         return self.root.example
 
     def reset_index(self):
-        return type(self)(self.root.reset_index(), n=self.n, value=self.value)
+        return type(self)(self.root.reset_index(), n=self.n, value=self.value,
+                          with_state=self.with_state, start=self.start)
 
     def aggregate(self, agg):
         if self.n is not None:
